@@ -58,7 +58,7 @@ def run_r1(ctx, rule):
         if nid not in homes or m != "write_all":
             rule.bad("%s/sink-%s" % (nid, m), "the sink is called (%s) outside the two sanctioned sites" % m, f.loc(bb))
             continue
-        g = guards.holds(f, bb, lambda fa: fa[0] == "bool" and fa[2] is True and fa[1][0] == "call" and norm(fa[1][2]).endswith("Option::is_none") and fa[1][3][0] == ("f", SELF, "io_error"))
+        g = guards.holds(f, bb, lambda fa: fa[0] == "bool" and fa[1][0] == "call" and fa[1][3] and fa[1][3][0] == ("f", SELF, "io_error") and (fa[2] is True and norm(fa[1][2]).endswith("Option::is_none") or fa[2] is False and norm(fa[1][2]).endswith("Option::is_some")))
         rule.check(bool(g), "%s/sink-while-error-parked" % short(nid), "the sink is only called while no error is parked (%s)" % (guards.show_fact(f, g[1]) if g else "no dominating io_error.is_none()"), f.loc(bb))
         # the Err of the sink call is stored into io_error
         stored = False
@@ -81,7 +81,8 @@ def run_r2(ctx, rule):
     c = cfg(f)
     sy = sym(f)
     clears = [bb for bb, t in f.calls() if util.cname(t).endswith("Vec::clear") and strip_bb(sy.operand(t["args"][0])) == ("f", SELF, "buf")]
-    ok = bool(clears) and all(any(c.postdominates(cb, 0) for cb in clears) for _ in [0])
+    # every path from the entry to a return passes a clear(): without the clearing blocks no return is reachable
+    ok = bool(clears) and not (set(c.exits) & c.reachable_from(0, avoid=clears))
     rule.check(ok, "flush_defer_err/clears", "flush_defer_err clears the buffer on every path (also while an error is parked or after a failed write)", f.loc(clears[0]) if clears else f.loc())
     for bb, t in f.calls():
         if is_sink_call(t):
@@ -168,7 +169,7 @@ def run_r4(ctx, rule):
                 e = sy2.operand(a)
                 if e == ("f", SELF, "io_error") and norm(f2.id).startswith((DW, "<" + DWT)):
                     cn = util.cname(t).rsplit("::", 1)[-1]
-                    rule.check(cn in ("is_none", "take"), "%s/io_error-use-%s" % (norm(f2.id), cn), "io_error is only tested with is_none or taken (%s in %s)" % (cn, short(f2.id)), f2.loc(bb))
+                    rule.check(cn in ("is_none", "is_some", "take"), "%s/io_error-use-%s" % (norm(f2.id), cn), "io_error is only tested with is_none/is_some or taken (%s in %s)" % (cn, short(f2.id)), f2.loc(bb))
     # Write::flush = flush_defer_err ; check_io_error
     ff = wfn(facts, "<" + DWT + " as std::io::Write>::flush")
     order = [norm(util.cname(t)) for bb, t in sorted(ff.calls())]
